@@ -172,6 +172,7 @@ func runCheck(propID, repo, verif, tier string, verbose bool) int {
 	unknownCalls := map[string]int{}
 	inlined := map[string]bool{}
 	haveClause := map[string]bool{}
+	var deadReturns []string
 	for _, u := range units {
 		fe := fnEv{Name: shortKey(u.Key), Kind: u.Kind}
 		if u.Err != "" {
@@ -205,6 +206,12 @@ func runCheck(propID, repo, verif, tier string, verbose bool) int {
 			haveClause[o.Name] = true
 			solverSeconds += o.Seconds
 			fe.Seconds += o.Seconds
+			if o.Kind == "cover.soft" {
+				if o.Result == "unsat" {
+					deadReturns = append(deadReturns, o.Name+" at "+o.Pos)
+				}
+				continue
+			}
 			if o.IsCover {
 				if o.Result != "sat" {
 					name := o.Name
@@ -396,6 +403,7 @@ func runCheck(propID, repo, verif, tier string, verbose bool) int {
 		"known_findings_hit":       dedup(knownHit),
 		"explanation":              prop.Explanation,
 		"violating_obligations":    violNames,
+		"returns_unreachable_under_contracts": deadReturns,
 	}
 	if len(samples) == 0 {
 		cov["samples"] = []interface{}{"no obligation discharged in this run"}
